@@ -45,7 +45,7 @@ def ev_term(t, val, calls=None):
         a, b = ev_term(t[2], val, calls), ev_term(t[3], val, calls)
         try:
             return {"+": lambda: a + b, "-": lambda: a - b, "%": lambda: a % b, "*": lambda: a * b, "&": lambda: a & b,
-                    ">>": lambda: a >> b, "<<": lambda: a << b}[t[1]]()
+                    ">>": lambda: a >> b, "<<": lambda: a << b, "//": lambda: a // b, "|": lambda: a | b, "^": lambda: a ^ b}[t[1]]()
         except Exception:
             raise Unknown(tstr(t))
     if h == "cmp":
